@@ -10,6 +10,10 @@ CHECKS = {
    technique="proptest-generated transfer scenarios with a fault (network cut / cancellation) placed on the fault-free wire log of the same scenario; thorough tier enumerates every cut position of 200 base scenarios",
    text="Generated transfers with flush/shutdown points and a network cut at a generated (quick) or every (thorough, fault enumeration) emission index, or a cancellation at a generated instant; readers read until end or error. Every Ok flush/shutdown must be backed by the peer application obtaining those bytes, clean EOF never with fewer bytes than a successful shutdown covered, operations resolve within inactivity + 75 s after an abort with data outstanding (1 s after cancel).",
    note="quick tier samples cut positions (plus full enumeration of 6 scenarios); F8-type hangs at a closed window are counted as known finding F8-C03", ref="§5 C03"),
+ "C08": dict(engine="E2E", cat="exploration",
+   technique="proptest-generated open/close cycles against the connection limit over a lossy simulated network, with stale-datagram replay and socket cancellation; oracle on slot reuse, end-of-task events, silence and alive-task count",
+   text="Cycles of `limit` (1..4) connections on one socket pair with max_live_vsocks = limit; every side writes a little and lets go in a generated way (drop both, shutdown then drop, reader first, wait for EOF with application patience, writer first); closing datagrams dropped/delayed/duplicated freely, dont_wait_for_lastack either way, old datagrams replayed after the end, cancellation token fired at a generated instant in 20 % of the cases. Every later cycle must be established (slots released), each connection task ends within T_end = 82 s of both halves being dropped, nothing carrying its id is emitted afterwards, at the end only dispatchers are alive; after cancel nothing is emitted, tasks are dropped promptly and no write succeeds.",
+   note="end-of-task instants come from the cfg-guarded observer hook; T_end = inactivity (10 s) + 70 s back-off allowance + 2 s; RESET replies are not counted as emissions for the connection", ref="§5 C08"),
  "C14": dict(engine="E2E", cat="exploration",
    technique="proptest-generated link/path MTU configurations with blackhole or EMSGSIZE and fair loss; wire-log oracle on datagram sizes, probe discipline and convergence",
    text="Generated link MTUs, true path MTUs, address families, probe retransmission limits and loss of non-probe datagrams; every datagram fits the emitter's link MTU, first transmissions above the proven size are single newest probes, data stays intact, the steady size equals the largest fitting payload within 2*ceil(log2(range))+3 probes.",
